@@ -27,6 +27,7 @@ from . import tags
 
 LABEL = "\\x01"
 DIGITS = "[0-9]+"
+SIGNED = "-?[0-9]+"  # Display of a signed integer / of a sat::Literal (its Display prints the isize; checked by clause-store)
 
 
 class Undecided(Exception):
@@ -173,6 +174,12 @@ def _matches(prog, body, op, sink):
             return True
         if kind == "local" and o.kind == "call" and o.site is not None and (o.site.bb, o.site.si) == (key.bb, key.si) and o.site.body is key.body:
             return True
+        if kind == "field":
+            # a field of self: `(*_1).name`, a capture of self projected to it, or a disjoint capture `*self.name`
+            if o.kind == "param" and o.data == 1 and o.fields and str(o.fields[0]) == key:
+                return True
+            if o.kind == "upvar" and ((o.fields and str(o.fields[0]) == key) or re.search(r"self\.%s$" % re.escape(key), body.upvar_name(o.data) or "")):
+                return True
     return False
 
 
@@ -212,8 +219,10 @@ def _display_regex(prog, body, op, site):
     t = ty.replace("&", "").replace("mut ", "").strip()
     if re.match(r"^utils::label::Label<", t) or t in ("T",):
         return LABEL
-    if t in ("usize", "isize", "u32", "u64", "i32", "i64"):
+    if t in ("usize", "u32", "u64"):
         return DIGITS
+    if t in ("isize", "i32", "i64", "sat::sat_solver::Literal"):
+        return SIGNED
     if t in ("alloc::string::String", "str"):
         return string_lang(prog, body, op, site)
     raise Undecided("Display of %s at %s" % (t, site.loc()))
@@ -274,6 +283,17 @@ def string_lang(prog, body, op, at_site, depth=0):
                 e = elements_lang(prog, body, a[0], o.site, depth + 1)
                 s = string_lang(prog, body, a[1], o.site, depth + 1)
                 res = alt(res, alt("", cat(e, star(cat(s, e)))))
+            elif d == "core::iter::traits::iterator::Iterator::fold" and len(a) == 3:
+                # `iter.fold(String::new(), |mut acc, x| { acc.push_str(&x); acc })`
+                init = string_lang(prog, body, a[1], o.site, depth + 1) if op_const(a[1]) is not None or op_place(a[1]) is not None else ""
+                clos = [prog.by_target[body.target].get(x) for x in (o.data.get("fn_args") or [])]
+                clos = [x for x in clos if x is not None and x.kind == "closure"]
+                if len(clos) != 1:
+                    raise Undecided("fold without a closure body at %s" % o.site.loc())
+                step = sink_language(prog, clos[0], ("param", 2), depth=depth + 1)
+                res = alt(res, cat(init, star(step)))
+            elif d in ("alloc::string::String::new", "alloc::string::String::with_capacity") and False:
+                pass
             elif re.search(r"(^|::)concat$", d) and len(a) == 1:
                 res = alt(res, star(elements_lang(prog, body, a[0], o.site, depth + 1)))
             elif d in _NEW_STRING and "String" in body.local_ty(o.site.node["dst"]["l"]):
@@ -482,6 +502,7 @@ def _emission(prog, body, cells, s, sink, val, depth):
                     continue
                 if _matches(prog, body, cop, sink):
                     sink_f = u["field"]
+                    sink_kind = "upvar"
                 elif u.get("by_ref") and u.get("ty") == "bool":
                     q = op_place(cop)
                     if q is not None:
@@ -516,6 +537,13 @@ def _emission(prog, body, cells, s, sink, val, depth):
         for k2 in range(1, tgt.n_args + 1):
             if k2 in tcells.bools and k2 - 1 < len(args):
                 init[("L", k2)] = cellexpr(cells, args[k2 - 1], val)
+            elif k2 - 1 < len(args) and op_place(args[k2 - 1]) is not None:
+                # a collection whose length is fixed at the call: `slice::from_ref(x)` (1), `&[a, b, ..]` (n)
+                for o in origins(body, args[k2 - 1], transparent=_REF_T):
+                    if o.kind == "call" and callee_decl(o.data) in ("core::slice::from_ref", "core::slice::raw::from_ref", "core::array::from_ref"):
+                        init[("LEN", k2)] = 1
+                    elif o.kind == "agg" and o.data.get("kind") == "array":
+                        init[("LEN", k2)] = len(o.site.node["rv"]["ops"])
         m = sink_matrix(prog, tgt, ("param", hit[0] + 1), init, depth=depth + 1)
         r = None
         for _, rr in m.items():
@@ -628,6 +656,10 @@ def sink_matrix(prog, body, sink, init=None, end_bb=None, depth=0):
                 if st["k"] != "assign":
                     continue
                 dst = st["dst"]
+                if not dst["p"] and st["rv"]["k"] == "use":
+                    q = op_place(st["rv"]["ops"][0])
+                    if q is not None and not q["p"] and ("IT", q["l"]) in val:
+                        val[("IT", dst["l"])] = val[("IT", q["l"])]
                 if not dst["p"] and dst["l"] in cells.bools:
                     val[("L", dst["l"])] = cellexpr(cells, st["rv"]["ops"][0], val) if st["rv"]["k"] == "use" else "U"
                 elif dst["p"] == ["*"]:
@@ -652,11 +684,50 @@ def sink_matrix(prog, body, sink, init=None, end_bb=None, depth=0):
                         v[("E", e)] = {"init": "first"}.get(v.get(("E", e), "init"), "later")
                         outs2.append((r, v))
                     outs = outs2
-                # a bool cell passed by `&mut` to an unknown callee is no longer known
+                # iterators over a collection whose length the caller fixed (`slice::from_ref(x)`, `&[a, b]`): exact counts
+                d0 = callee_decl(callee_of(s)) if callee_of(s) else ""
+                if d0 in ("core::iter::traits::collect::IntoIterator::into_iter", "core::slice::iter", "core::iter::traits::iterator::Iterator::enumerate", "core::iter::traits::iterator::Iterator::by_ref") and s.node["args"]:
+                    n0 = None
+                    for o in origins(body, s.node["args"][0], transparent=_REF_T):
+                        if o.kind == "param" and not o.fields and ("LEN", o.data) in val:
+                            n0 = val[("LEN", o.data)]
+                    a0 = op_place(s.node["args"][0])
+                    if n0 is None and a0 is not None and not a0["p"] and ("IT", _ref_root(body, a0["l"])) in val:
+                        n0 = val[("IT", _ref_root(body, a0["l"]))]
+                    if n0 is not None:
+                        outs = [(r, dict(v, **{})) for r, v in outs]
+                        for _, v in outs:
+                            v[("IT", s.node["dst"]["l"])] = n0
+                if d0 == "core::iter::traits::iterator::Iterator::next" and s.node["args"]:
+                    a0 = op_place(s.node["args"][0])
+                    root = _ref_root(body, a0["l"]) if a0 is not None else None
+                    if root is not None and ("IT", root) in val:
+                        outs2 = []
+                        for r, v in outs:
+                            v = dict(v)
+                            left = v[("IT", root)]
+                            if left > 0:
+                                v[("IT", root)] = left - 1
+                                v[("NX", s.node["dst"]["l"])] = "S"
+                            else:
+                                v[("NX", s.node["dst"]["l"])] = "N"
+                            outs2.append((r, v))
+                        outs = outs2
             succs = [sc for sc in body.succ[bb] if (bb, sc) not in err and sc in body.reachable]
             if t["k"] == "switch":
                 p = op_place(t["discr"])
-                if p is not None and not p["p"] and body.local_ty(p["l"]) == "bool":
+                known = None
+                if p is not None and not p["p"]:
+                    ds = body.defs.get(p["l"], [])
+                    if len(ds) == 1 and ds[0].si is not None and ds[0].node["k"] == "assign" and ds[0].node["rv"]["k"] == "discr":
+                        q = ds[0].node["rv"]["place"]
+                        if not q["p"] and ("NX", q["l"]) in val:
+                            known = val[("NX", q["l"])]
+                if known is not None:
+                    tgt = [tb for x, tb in t["targets"] if x == ("1" if known == "S" else "0")]
+                    if tgt:
+                        succs = [sc for sc in succs if sc in tgt]
+                elif p is not None and not p["p"] and body.local_ty(p["l"]) == "bool":
                     v = cellexpr(cells, t["discr"], val)
                     zero = [tb for x, tb in t["targets"] if x == "0"]
                     one = [tb for x, tb in t["targets"] if x == "1"]
